@@ -160,8 +160,8 @@ theorem boundary_e (o : PyId → Nat) (n : Nat) {i j : Nat} (hi : i < (downIds s
   have h1 : (downIds s (n + 1)).length ≠ 0 := by omega
   have h2 : (upIds s (n + 1)).length ≠ 0 := by
     unfold upIds; rw [if_neg (by omega), List.length_map]; omega
-  simp only [boundary, h1, h2, false_or, Nat.add_eq_zero_iff, Nat.succ_ne_zero, and_false, if_false,
-    List.getElem?_eq_getElem hj]
+  simp only [boundary, h1, h2, false_or, Nat.succ_ne_zero, if_false, List.getElem?_map,
+    List.getElem?_eq_getElem hj, Option.map_some]
 
 /-! ### the writes of the general branch -/
 
